@@ -393,10 +393,6 @@ impl<'de, R: Read<'de>> Parser<R> {
         self.read.next()
     }
 
-    fn next_char_or_null(&mut self) -> Result<u8> {
-        Ok(self.next_char()?.unwrap_or(b'\x00'))
-    }
-
     /// Error caused by a byte from next_char().
     fn error(&mut self, reason: ErrorCode) -> Error {
         let pos = self.read.position();
@@ -891,8 +887,10 @@ impl<'de, R: Read<'de>> Parser<R> {
 
     fn expect_ident(&mut self, ident: &[u8]) -> Result<()> {
         for c in ident {
-            if Some(*c) != self.next_char()? {
-                return Err(self.error(ErrorCode::ExpectedSomeIdent));
+            match self.next_char()? {
+                Some(b) if b == *c => {}
+                Some(_) => return Err(self.error(ErrorCode::ExpectedSomeIdent)),
+                None => return Err(self.error(ErrorCode::EofWhileParsingValue)),
             }
         }
 
@@ -1107,12 +1105,13 @@ impl<'de, R: Read<'de>> Parser<R> {
         match self.peek_or_null()? {
             b'#' => {
                 self.eat_char();
-                match self.next_char_or_null()? {
-                    b'b' => self.parse_radix_literal(2),
-                    b'o' => self.parse_radix_literal(8),
-                    b'd' => self.parse_radix_literal(10),
-                    b'x' => self.parse_radix_literal(16),
-                    _ => Err(self.peek_error(ErrorCode::InvalidNumber)),
+                match self.next_char()? {
+                    Some(b'b') => self.parse_radix_literal(2),
+                    Some(b'o') => self.parse_radix_literal(8),
+                    Some(b'd') => self.parse_radix_literal(10),
+                    Some(b'x') => self.parse_radix_literal(16),
+                    Some(_) => Err(self.peek_error(ErrorCode::InvalidNumber)),
+                    None => Err(self.peek_error(ErrorCode::EofWhileParsingValue)),
                 }
             }
             _ => self.parse_radix_literal(10),
@@ -1148,11 +1147,12 @@ impl<'de, R: Read<'de>> Parser<R> {
     fn parse_num_literal(&mut self, radix: u8, pos: bool) -> Result<Number> {
         let r = u64::from(radix);
         // There needs to be a leading digit (R7RS 7.1)
-        let first_digit = match self.next_char_or_null()? {
-            c @ b'0'..=b'9' => c - b'0',
-            c @ b'a'..=b'f' => 10 + (c - b'a'),
-            c @ b'A'..=b'F' => 10 + (c - b'A'),
-            _ => return Err(self.peek_error(ErrorCode::InvalidNumber)),
+        let first_digit = match self.next_char()? {
+            Some(c @ b'0'..=b'9') => c - b'0',
+            Some(c @ b'a'..=b'f') => 10 + (c - b'a'),
+            Some(c @ b'A'..=b'F') => 10 + (c - b'A'),
+            Some(_) => return Err(self.peek_error(ErrorCode::InvalidNumber)),
+            None => return Err(self.peek_error(ErrorCode::EofWhileParsingValue)),
         };
         if first_digit >= radix {
             return Err(self.peek_error(ErrorCode::InvalidNumber));
@@ -1286,7 +1286,10 @@ impl<'de, R: Read<'de>> Parser<R> {
         }
 
         if !at_least_one_digit {
-            return Err(self.peek_error(ErrorCode::InvalidNumber));
+            return Err(match self.peek()? {
+                Some(_) => self.peek_error(ErrorCode::InvalidNumber),
+                None => self.peek_error(ErrorCode::EofWhileParsingValue),
+            });
         }
 
         match self.peek_or_null()? {
@@ -1316,10 +1319,13 @@ impl<'de, R: Read<'de>> Parser<R> {
         };
 
         // Make sure a digit follows the exponent place.
-        let mut exp = match self.next_char_or_null()? {
-            c @ b'0'..=b'9' => i32::from(c - b'0'),
-            _ => {
+        let mut exp = match self.next_char()? {
+            Some(c @ b'0'..=b'9') => i32::from(c - b'0'),
+            Some(_) => {
                 return Err(self.error(ErrorCode::InvalidNumber));
+            }
+            None => {
+                return Err(self.error(ErrorCode::EofWhileParsingValue));
             }
         };
 
